@@ -32,7 +32,10 @@ def _vec_body(opi, a, b):
         return True
     keep = [('copy', lambda: v.copy()), ('slice', lambda: v[0:2]), ('empty slice', lambda: v[0:0]), ('reversed slice', lambda: v[::-1]), ('mask vector', lambda: v[Vector([True, False, True])]),
             ('mask list', lambda: v[[False, False, True]]), ('index list', lambda: v[[2, 0]]), ('sort_by', lambda: v.sort_by()), ('sort_by reverse', lambda: v.sort_by(reverse=True, na_last=False)),
-            ('T', lambda: v.T), ('fillna', lambda: v.fillna(0)), ('cast', lambda: v.cast(float)), ('to_object', lambda: v.to_object())]
+            ('T', lambda: v.T), ('fillna', lambda: v.fillna(0)), ('cast', lambda: v.cast(float)), ('to_object', lambda: v.to_object()),
+            ('mask vector selecting nothing', lambda: v[Vector([False, False, False])]), ('mask vector selecting all', lambda: v[Vector([True, True, True])]),
+            ('mask list selecting nothing', lambda: v[[False, False, False]]), ('comparison mask selecting nothing', lambda: v[v > 100]),
+            ('comparison mask selecting all', lambda: v[v == v]), ('one-element index list', lambda: v[[1]])]
     k = opi - len(ops)
     if k < len(keep):
         label, f = keep[k]
@@ -52,7 +55,7 @@ def _vec_body(opi, a, b):
     return True
 
 
-N_VEC_OPS = len(BIN) + 13 + 7
+N_VEC_OPS = len(BIN) + 19 + 7
 
 
 def h_vec(opi: int, a: int, b: int) -> bool:
@@ -103,7 +106,8 @@ def h_table_arith(opi: int, a: int, b: int, c: int, d: int) -> bool:
 
 ORIGINS = ['list', 'dict', 'rshift', 'sorted', 'sliced', 'masked', 'joined', 'join-of-sorted', 'selected']
 DERIVS = ['Table(list)', 'Vector(vectors)', 'rshift-vector', 'rshift-table', 'rshift-dict', 'vector>>table', 'slice', 'empty-slice', 'mask', 'mask-vector', 'index-vector', 'sort', 'sort-desc', 'sort-empty',
-          'inner', 'left', 'full', 'inner-empty', 'left-empty-left', 'full-empty', 'colsel', 'sel2d', 'copy', 'cell-write', 'T.T-cells-only']
+          'inner', 'left', 'full', 'inner-empty', 'left-empty-left', 'full-empty', 'colsel', 'sel2d', 'copy', 'cell-write', 'T.T-cells-only',
+          'mask-none', 'mask-vector-none', 'mask-vector-all', 'filter-none', 'filter-all', 'reversed-slice']
 
 
 def _origin(kind, n0, n1):
@@ -149,6 +153,12 @@ def _struct_body(oi, di, n0, n1, n2):
     elif d == 'mask': r = t[[(i % 2 == 0) for i in range(n)]]; want = names
     elif d == 'mask-vector': r = t[Vector([(i % 2 == 1) for i in range(n)])]; want = names
     elif d == 'index-vector': r = t[Vector([n - 1, 0])]; want = names
+    elif d == 'mask-none': r = t[[False] * n]; want = names
+    elif d == 'mask-vector-none': r = t[Vector([False] * n)]; want = names
+    elif d == 'mask-vector-all': r = t[Vector([True] * n)]; want = names
+    elif d == 'filter-none': r = t[Vector(list(range(n))) > 100]; want = names
+    elif d == 'filter-all': r = t[Vector(list(range(n))) >= 0]; want = names
+    elif d == 'reversed-slice': r = t[::-1]; want = names
     elif d == 'sort': r = t.sort_by(key0); want = names
     elif d == 'sort-desc': r = t.sort_by([key0, t.cols()[1]], reverse=[True, False], na_last=False); want = names
     elif d == 'sort-empty': r = t[0:0].sort_by(t[0:0].cols()[0]); want = names
